@@ -431,7 +431,12 @@ int main(int argc, char **argv) {
     printf("case %s\n", cases[c].first.c_str()); fflush(stdout);
     pid_t pid = nofork ? 0 : fork();
     if (pid == 0) {
-      { Ctx C; for (size_t k = 0; k < cases[c].second.size(); k++) run_line(C, cases[c].second[k], (long)k); }
+      { Ctx *C = new Ctx();
+        for (size_t k = 0; k < cases[c].second.size(); k++) {
+          // "newmodel": the rest of the case works on a fresh model (twin descriptions of one mechanism, C07)
+          if (cases[c].second[k] == "newmodel") { delete C; C = new Ctx(); continue; }
+          run_line(*C, cases[c].second[k], (long)k); }
+        delete C; }
       fflush(stdout);
       if (!nofork) _exit(0);
     } else {
